@@ -478,7 +478,9 @@ def copy_array(x, xp: Any = None) -> Array:
         if is_torch_array(x):
             return xp.clone(x)
         else:
-            return xp.as_tensor(x)
+            # as_tensor shares memory with a NumPy input: clone, or in-place
+            # updates of the "copy" write through to the caller's array
+            return xp.clone(xp.as_tensor(x))
     else:
         try:
             return xp.copy(x)
